@@ -55,6 +55,31 @@ BP_FP = {"do_block": "stub_do_block", "read_at": "stub_unreach_read_at",
          "get_worker_count": "stub_unreach_get_worker_count",
          "set_worker_ptr": "stub_unreach_set_worker_ptr"}
 
+IO_FP = {"dequeue": "stub_dequeue", "get_status": "stub_get_status",
+         "write_data_block": "stub_write_data_block"}
+
+
+def _io_cases():
+    # (kinds in the pool, blocks waiting in io_queue, position of the
+    # fragment block's number among the outstanding ones)
+    shapes = [("d", 0, 0), ("dd", 0, 0), ("m", 0, 0), ("md", 0, 0), ("", 0, 0),
+              ("f", 0, 0), ("f", 1, 0), ("f", 2, 0), ("f", 2, 1),
+              ("df", 1, 0), ("df", 2, 0), ("fd", 1, 0), ("fd", 2, 1), ("mf", 1, 0),
+              ("d", 1, 0), ("dd", 2, 0)]
+    km = {"d": 1, "m": 2, "f": 3}
+    out = []
+    for kinds, iq, fpos in shapes:
+        k = [km[c] for c in kinds] + [0, 0]
+        if "f" not in kinds and iq > 0:
+            # without a fragment block in flight a waiting block would carry
+            # io_deq_seq_num: allowed, it is flushed first
+            pass
+        out.append(dict(id="%s_q%d_f%d" % (kinds or "none", iq, fpos),
+                        defines={"K0": k[0], "K1": k[1], "IQ": iq, "FPOS": fpos},
+                        tier="quick"))
+    return out
+
+
 HARNESSES = [
     dict(name="static_fact", file="static_fact.c", label="static(call scan of the packers' link set)",
          timeout=600, native=False, cases=[dict(id="scan", defines=_StaticDefs(), tier="quick")]),
@@ -64,4 +89,29 @@ HARNESSES = [
     dict(name="worker_deterministic", file="process_block.c", label="bounded(block size <= 8)",
          fp=BP_FP, unwind=10, timeout=600,
          cases=[dict(id="bs8", defines={"BS": 8}, tier="quick")]),
+    dict(name="io_order", file="io_order.c", label="bounded(blocks in pool <= 2, io_queue <= 2)",
+         fp=IO_FP, unwind=8, timeout=600, nochecks=["--conversion-check"],
+         cases=_io_cases()),
+    dict(name="store_io_block", file="store_io_block.c", label="bounded(io_queue <= 3)",
+         fp={"*": "harness"}, unwind=7, timeout=600,
+         cases=[dict(id="q3", defines={"QL": 3}, tier="quick")]),
+    dict(name="frag_seq", file="frag_seq.c", label="bounded(block size <= 8)",
+         fp={"*": "harness"}, unwind=10, timeout=600, nochecks=["--conversion-check"],
+         cases=[dict(id="fb%d_dd%d_ft%d" % (a, b, c), tier="quick",
+                     defines={"HASFB": a, "DEDUP": b, "FTBL": c, "K0": 1, "K1": 0, "IQ": 1})
+                for a in (0, 1) for b in (0, 1) for c in (0, 1)]),
+    dict(name="finish_seq", file="finish_seq.c", label="bounded(blocks in pipeline <= 2)",
+         fp={"*": "stub_unreach"}, unwind=6, timeout=600,
+         cases=[dict(id="finish", defines={"NBACK": 2}, tier="quick"),
+                dict(id="sync", defines={"NBACK": 2, "OP_SYNC": None}, tier="quick")]),
+    dict(name="get_new_block", file="frontend_seq.c", label="bounded(drain calls <= 2)",
+         fp={"submit": "stub_submit", "get_status": "stub_get_status"}, unwind=4,
+         malloc_fail=True, timeout=600, cases=[dict(id="default", tier="quick")]),
+    dict(name="enqueue_block", file="frontend_seq.c", label="bounded(no fragment-block copy path: file/uncmp absent)",
+         fp={"submit": "stub_submit", "get_status": "stub_get_status"},
+         defines={"OP_ENQUEUE": None}, unwind=4, timeout=600,
+         cases=[dict(id="default", tier="quick")]),
+    dict(name="source_date_epoch", file="sde.c", label="bounded(len<=11)",
+         unwind=20, timeout=600, nochecks=["--conversion-check"],
+         cases=[dict(id="len11", defines={"LEN": 11}, tier="quick")]),
 ]
